@@ -190,4 +190,84 @@ theorem adjust_ge11 (tab : List (List Int)) (n1 n2 depth w : Nat) (hn1 : 1 ≤ n
     · exact htr
     · intro _; omega
 
+/-! ### termination of the first loop -/
+
+theorem two_d_le (d : Nat) (hd : 4 ≤ d) : 2 * d + 4 ≤ 2 ^ d := by
+  induction d with
+  | zero => omega
+  | succ e ih =>
+    by_cases h : e = 3
+    · subst h; norm_num
+    · have := ih (by omega); rw [pow_succ]; omega
+
+/-- the first loop's exit test holds at (d, 1) as soon as (2^d)^2 ≥ total bits -/
+theorem stop_at (d b1 b2 : Nat) (hd : 6 ≤ d) (h1 : 1 ≤ b1) (h2 : 1 ≤ b2) (hb : b1 + b2 ≤ (2 ^ d) ^ 2) :
+    trunc b1 b2 d 1 ≤ 4 * 2 ^ d := by
+  unfold trunc coeffs
+  have hn := two_d_le d (by omega)
+  have hbits : 2 ^ d ≤ 4 * bitsOf d 1 := by unfold bitsOf; omega
+  have hpos : 0 < bitsOf d 1 := by
+    have : 64 ≤ 2 ^ d := by
+      calc 64 = 2 ^ 6 := by norm_num
+        _ ≤ 2 ^ d := Nat.pow_le_pow_right (by norm_num) hd
+    omega
+  generalize bitsOf d 1 = X at *
+  generalize 2 ^ d = n at *
+  have e1 : (b1 - 1) / X * X ≤ b1 - 1 := Nat.div_mul_le_self _ _
+  have e2 : (b2 - 1) / X * X ≤ b2 - 1 := Nat.div_mul_le_self _ _
+  generalize (b1 - 1) / X = q1 at *
+  generalize (b2 - 1) / X = q2 at *
+  have e1' : q1 * X + 1 ≤ b1 := by omega
+  have e2' : q2 * X + 1 ≤ b2 := by omega
+  have k1 : n ^ 2 ≤ 4 * n * X := by nlinarith [Nat.mul_le_mul_left n hbits]
+  have : (q1 + q2) * X < 4 * n * X := by nlinarith
+  have := Nat.lt_of_mul_lt_mul_right this
+  omega
+
+theorem findInit_some (b1 b2 D : Nat) (hstop : trunc b1 b2 D 1 ≤ 4 * 2 ^ D) :
+    ∀ (fuel d w : Nat), d ≤ D → ((w = 1 ∧ 2 * (D - d) + 1 ≤ fuel) ∨ (w = 2 ∧ d < D ∧ 2 * (D - d) ≤ fuel)) →
+      findInit b1 b2 fuel d w ≠ none := by
+  intro fuel
+  induction fuel with
+  | zero => intro d w _ h; omega
+  | succ f ih =>
+    intro d w hd h
+    unfold findInit
+    by_cases hc : trunc b1 b2 d w > 4 * 2 ^ d
+    · simp only [hc, if_true]
+      rcases h with ⟨rfl, hf⟩ | ⟨rfl, hlt, hf⟩
+      · simp only [if_true]
+        have : d < D := by
+          by_contra hx
+          have : d = D := by omega
+          subst this; omega
+        exact ih d 2 hd (Or.inr ⟨rfl, this, by omega⟩)
+      · simp only [show ¬ (2 = 1) by decide, if_false]
+        exact ih (d + 1) 1 (by omega) (Or.inl ⟨rfl, by omega⟩)
+    · simp [hc]
+
+/-- total bits fit under (2^D)^2 for D = log2(n1+n2)/2 + 6 -/
+theorem depth_bound (n1 n2 : Nat) :
+    n1 * limbBits + n2 * limbBits ≤ (2 ^ (Nat.log2 (n1 + n2) / 2 + 6)) ^ 2 := by
+  have hN : n1 + n2 < 2 ^ (Nat.log2 (n1 + n2) + 1) := Nat.lt_log2_self
+  generalize Nat.log2 (n1 + n2) = L at *
+  have : (2 ^ (L / 2 + 6)) ^ 2 = 2 ^ (2 * (L / 2) + 12) := by rw [← pow_mul]; congr 1; ring
+  rw [this]
+  have h2 : 2 ^ (L + 7) ≤ 2 ^ (2 * (L / 2) + 12) := Nat.pow_le_pow_right (by norm_num) (by omega)
+  have h3 : 2 ^ (L + 7) = 64 * 2 ^ (L + 1) := by rw [show L + 7 = (L + 1) + 6 by omega, pow_add]; norm_num; ring
+  unfold limbBits
+  omega
+
+/-- mul_fft_main.c:55-68 terminates: the model's fuel is sufficient, so `fftParams` never returns `none`. -/
+theorem fftParams_total (tab : List (List Int)) (n1 n2 : Nat) (hn1 : 1 ≤ n1) (hn2 : 1 ≤ n2) :
+    fftParams tab n1 n2 ≠ none := by
+  unfold fftParams
+  simp only []
+  have hb := depth_bound n1 n2
+  have hstop := stop_at (Nat.log2 (n1 + n2) / 2 + 6) (n1 * limbBits) (n2 * limbBits) (by omega)
+    (by unfold limbBits; omega) (by unfold limbBits; omega) hb
+  have := findInit_some _ _ _ hstop (initFuel n1 n2) 6 1 (by omega) (Or.inl ⟨rfl, by unfold initFuel; omega⟩)
+  split
+  · contradiction
+  · simp
 end Mpir.FftParams
